@@ -645,30 +645,73 @@ def r_supersede(ctx) -> RuleResult:
                 merge_calls.append(y)
     if not merge_calls:
         raise AnalysisError("R-SUPERSEDE: cannot find where property entries are merged into the atom records")
-    # flags set in the CHG / RAD branches
-    flags = {}
+    # what does each branch (CHG line seen / RAD line seen) establish?  flags set to True, dictionary keys stored
+    facts: dict[str, set] = {}
+    branch_nodes = {}
     for n in own_walk(fn):
         if isinstance(n, ast.If) and isinstance(n.test, ast.Call) and isinstance(n.test.func, ast.Attribute) and n.test.func.attr == "startswith" \
                 and n.test.args and isinstance(n.test.args[0], ast.Constant):
             which = n.test.args[0].value
-            for st in n.body:
+            branch_nodes[which] = n
+            for st in ast.walk(ast.Module(n.body, [])):
                 if isinstance(st, ast.Assign) and isinstance(st.targets[0], ast.Name) and isinstance(st.value, ast.Constant) and st.value.value is True:
-                    flags.setdefault(which, set()).add(st.targets[0].id)
-    both = flags.get("M  CHG", set()) & flags.get("M  RAD", set())
-    # kills guarded by that flag
-    killed_under = set()
+                    facts.setdefault(which, set()).add(("flag", st.targets[0].id))
+                if isinstance(st, ast.Assign) and isinstance(st.targets[0], ast.Subscript) and isinstance(st.targets[0].value, ast.Name):
+                    k = try_const(ctx, pf, st.targets[0].slice)
+                    if k is not None:
+                        facts.setdefault(which, set()).add(("key", st.targets[0].value.id, k))
+                if isinstance(st, ast.Call) and isinstance(st.func, ast.Attribute) and st.func.attr in ("add", "append") and isinstance(st.func.value, ast.Name) and st.args:
+                    k = try_const(ctx, pf, st.args[0])
+                    if k is not None:
+                        facts.setdefault(which, set()).add(("key", st.func.value.id, k))
+
+    def implied(cond: ast.expr, which: str) -> bool:
+        """does having seen a `which` line make the condition true?"""
+        fs = facts.get(which, set())
+        if isinstance(cond, ast.Name):
+            return ("flag", cond.id) in fs
+        if isinstance(cond, ast.BoolOp):
+            vals = [implied(v, which) for v in cond.values]
+            return any(vals) if isinstance(cond.op, ast.Or) else all(vals)
+        if isinstance(cond, ast.Compare) and len(cond.ops) == 1 and isinstance(cond.ops[0], ast.In) and isinstance(cond.comparators[0], ast.Name):
+            k = try_const(ctx, pf, cond.left)
+            return ("key", cond.comparators[0].id, k) in fs
+        return False
+    # every kill of chg / rad must run whenever a CHG line or a RAD line was seen
+    killed_when = {chg_k: False, rad_k: False}
+    conds = {}
     for n in own_walk(fn):
-        if isinstance(n, ast.If) and isinstance(n.test, ast.Name) and n.test.id in both:
+        if isinstance(n, ast.If):
             for x in ast.walk(ast.Module(n.body, [])):
                 if isinstance(x, ast.Call) and id(x) in kill_nodes:
-                    killed_under |= kill_nodes[id(x)][1]
-    ok = bool(both) and {chg_k, rad_k} <= killed_under
-    res.inst(pf.fq, f"CHG and RAD lines set a common flag {sorted(both)}; under it {sorted(killed_under)} are cleared", "ok" if ok else "fail")
+                    for k in kill_nodes[id(x)][1]:
+                        if k in killed_when and implied(n.test, "M  CHG") and implied(n.test, "M  RAD"):
+                            killed_when[k] = True
+                        conds.setdefault(k, []).append(short(n.test, 50))
+    ok = all(killed_when.values())
+    res.inst(pf.fq, f"chg cleared under {conds.get(chg_k)}, rad cleared under {conds.get(rad_k)}: both follow from a CHG line and from a RAD line", "ok" if ok else "fail")
     if not ok:
-        miss = sorted({chg_k, rad_k} - killed_under)
+        miss = sorted(k for k, v in killed_when.items() if not v)
         res.fail(Finding("R-SUPERSEDE", pf.module.rel, pf.qualname, f"supersession of {miss}",
                          f"a CHG or RAD property line does not clear {miss} of all atoms: atom-block charge codes survive although the format says they are superseded",
                          line=fn.lineno))
+    # entries of all lines accumulate: inside the scan loop nothing that depends on the line is stored under a loop-invariant name / key
+    for lp in [n for n in own_walk(fn) if isinstance(n, ast.For) and isinstance(n.target, ast.Name)]:
+        lv = lp.target.id
+        after = [st for st in fn.body if getattr(st, "lineno", 0) > lp.end_lineno]
+        used_after = {x.id for st in after for x in ast.walk(st) if isinstance(x, ast.Name) and isinstance(x.ctx, ast.Load)}
+        for st in ast.walk(lp):
+            if isinstance(st, ast.Assign) and lv in names_in(st.value):
+                tg = st.targets[0]
+                lossy = None
+                if isinstance(tg, ast.Name) and tg.id in used_after and tg.id != lv:
+                    lossy = tg.id
+                elif isinstance(tg, ast.Subscript) and isinstance(tg.value, ast.Name) and tg.value.id in used_after and try_const(ctx, pf, tg.slice) is not None:
+                    lossy = norm(tg)
+                if lossy:
+                    res.inst(pf.fq, short(st), "fail")
+                    res.fail(Finding("R-SUPERSEDE", pf.module.rel, pf.qualname, norm(st),
+                                     f"`{lossy}` is overwritten for every matching line: only the last line of a kind is kept, entries spread over several lines (more than eight entries) are lost", line=st.lineno))
     # clearing precedes the merge on every path
     for mc in merge_calls:
         mn = cfg.stmt_node_containing(mc) if not isinstance(mc, ast.stmt) else cfg.node_of(mc)
